@@ -1095,6 +1095,7 @@ var mtConst = map[string]string{
 	dag.MTDockerForeignLayer:                        "docker.MediaTypeForeignLayer",
 }
 
+
 // linksField renders every node's media type and decoded link fields (generator's ground truth:
 // subject, config, layers, manifests, blobs) for the in-Coq check that the link schema regenerated
 // from content.Successors, applied to these fields, yields exactly the generator's successor list,
